@@ -14,6 +14,9 @@ from .. import varcore as vc
 IMPORT_STYLES = {
     "relative": {"Stamp": {"type": ".scalars_mod.Stamp", "serialize": ".scalars_mod.serialize_stamp", "parse": ".scalars_mod.parse_stamp"},
                  "Day": {"type": "datetime.date"}},
+    # the class is its own parser (parse = type): parse must still be called, once, for every non-null occurrence
+    "type_as_parser": {"Stamp": {"type": ".scalars_mod.Stamp", "serialize": ".scalars_mod.serialize_stamp", "parse": ".scalars_mod.Stamp"},
+                       "Day": {"type": "datetime.date"}},
     "deprecated_import_key": {"Stamp": {"type": "Stamp", "serialize": "serialize_stamp", "parse": "parse_stamp", "import": ".scalars_mod"},
                               "Day": {"type": "date", "import": "datetime"}},
 }
